@@ -20,6 +20,7 @@
 #include <netinet/in.h>
 #include <netinet/tcp.h>
 #include <poll.h>
+#include <pthread.h>
 #include <signal.h>
 #include <stdio.h>
 #include <stdlib.h>
@@ -35,6 +36,7 @@
 #define MAXSENT 4096
 
 static FILE *out;
+static volatile int busy_ep;	/* endpoint whose socket is in use by the helper thread (0 = none): hands off */
 static long xid, stepno;
 static char tp[32];
 static bool raw_mode;	/* endpoint 2 is a raw kernel socket driven by the harness */
@@ -50,6 +52,10 @@ static long raw_written;
 
 /* content oracle */
 static int sent_len[3][MAXSENT];	/* messaging: lengths of accepted messages, per sending endpoint */
+static long sent_tok[3][MAXSENT];	/* ... and the number of the send call (content token) that offered each */
+static int fail_len[3][MAXSENT];	/* messaging: send calls that returned -1 */
+static long fail_tok[3][MAXSENT];
+static int nfail[3];
 static int nsent[3];
 static int ndeliv[3];	/* messages delivered to endpoint e */
 static unsigned char *stream[3];	/* byte stream accepted from endpoint e */
@@ -60,9 +66,9 @@ static long ref_tok[3], ref_len[3];	/* token and length of the last refused stre
    a TLS library may have captured the refused call's bytes and transmit them in place of the
    first bytes of the accepted call */
 #define MAXCALLS 4096
-static struct acall { long start, len, ptok, plen; } acalls[3][MAXCALLS];
+static struct acall { long start, len, ptok, plen, poff; } acalls[3][MAXCALLS];
 static int nacalls[3];
-static long cap_tok[3], cap_len[3];	/* the first send refused since the last accepted one (later refusals do not replace a captured record) */
+static long cap_tok[3], cap_len[3], cap_off[3];	/* the first send refused since the last accepted one (later refusals do not replace a captured record) */
 static int unchk[3];	/* content of the stream delivered to e is no longer judged (after a classified mismatch) */
 
 static unsigned char sbuf[MAXMSG + 16], rbufg[MAXMSG + 64];
@@ -73,29 +79,43 @@ static long rawpend_len, rawpend_cap, rawpend_off;
 static long raw_frames;
 
 /* ---- nested layer calls (link-time seam on xcm_tp_socket_*) ------------ */
-struct lcall { int depth; char proto[12]; char parent[12]; char op; long req; int rc; int err; };
-#define MAXL 4096
-static struct lcall lcalls[MAXL];
-static int nl;
-static int depth;
-static const char *pstack[16];
+static __thread int depth;
+static __thread const char *pstack[16];
 
 int __real_xcm_tp_socket_send(struct xcm_socket *s, const void *buf, size_t len);
 int __real_xcm_tp_socket_receive(struct xcm_socket *s, void *buf, size_t cap);
 int __real_xcm_tp_socket_finish(struct xcm_socket *s);
 
+struct lsum { long wu; int wt; long ru; int rt; int frc; int ferr; int n; };
+static __thread struct lsum lcur;	/* calls the framing layer (tcp/tls) made to the layer below, this API call */
+
 static void lrec(struct xcm_socket *s, char op, long req, int rc, int err)
 {
-    if (depth >= 1 && nl < MAXL) {
-	struct lcall *c = &lcalls[nl++];
-	c->depth = depth;
-	snprintf(c->proto, sizeof(c->proto), "%s", s->proto->name);
-	snprintf(c->parent, sizeof(c->parent), "%s", pstack[depth - 1]);
-	c->op = op;
-	c->req = req;
-	c->rc = rc;
-	c->err = err;
+    (void)s;
+    if (depth < 1)
+	return;
+    const char *parent = pstack[depth - 1];
+    if (strcmp(parent, "tcp") != 0 && strcmp(parent, "tls") != 0)
+	return;
+    lcur.n++;
+    if (op == 's') {
+	if (rc > 0) { lcur.wu += rc; lcur.wt = 0; }
+	else if (rc < 0) lcur.wt = err;
+    } else if (op == 'r') {
+	if (rc > 0) { lcur.ru += rc; lcur.rt = 0; }
+	else if (rc == 0 && req > 0) lcur.rt = SHIM_T_EOF;
+	else if (rc == 0) lcur.rt = -2;	/* zero-length read request returned 0 */
+	else lcur.rt = err;
+    } else if (op == 'f') {
+	lcur.frc = rc;
+	lcur.ferr = err;
     }
+}
+
+static void lreset(void)
+{
+    memset(&lcur, 0, sizeof(lcur));
+    lcur.frc = 1;	/* 1 = no finish call seen */
 }
 
 int __wrap_xcm_tp_socket_send(struct xcm_socket *s, const void *buf, size_t len)
@@ -134,32 +154,9 @@ int __wrap_xcm_tp_socket_finish(struct xcm_socket *s)
     return rc;
 }
 
-struct lsum { long wu; int wt; long ru; int rt; int frc; int ferr; int n; };
-
-/* summary of the calls the framing layer (tcp/tls) made to the layer below */
 static struct lsum l1_summary(void)
 {
-    struct lsum s = { 0 };
-    s.frc = 1;	/* 1 = no finish call seen */
-    for (int i = 0; i < nl; i++) {
-	struct lcall *c = &lcalls[i];
-	if (strcmp(c->parent, "tcp") != 0 && strcmp(c->parent, "tls") != 0)
-	    continue;
-	s.n++;
-	if (c->op == 's') {
-	    if (c->rc > 0) { s.wu += c->rc; s.wt = 0; }
-	    else if (c->rc < 0) s.wt = c->err;
-	} else if (c->op == 'r') {
-	    if (c->rc > 0) { s.ru += c->rc; s.rt = 0; }
-	    else if (c->rc == 0 && c->req > 0) s.rt = SHIM_T_EOF;
-	    else if (c->rc == 0) s.rt = -2;	/* zero-length read request returned 0 */
-	    else s.rt = c->err;
-	} else if (c->op == 'f') {
-	    s.frc = c->rc;
-	    s.ferr = c->err;
-	}
-    }
-    return s;
+    return lcur;
 }
 
 /* ---- content ----------------------------------------------------------- */
@@ -196,7 +193,7 @@ static void get_cnts(int e, long long *c)
 {
     for (int i = 0; i < 8; i++) {
 	c[i] = -1;
-	if (ep[e] == NULL)
+	if (ep[e] == NULL || busy_ep == e)
 	    continue;
 	if (is_stream && i >= 4) { c[i] = 0; continue; }
 	int64_t v;
@@ -275,9 +272,9 @@ static void emit_obs(void)
 	rd[e] = kr[e] = em[e] = bl[e] = -1;
 	fdc[e] = 0;
 	av[e] = -1;
-	if (ep[e] != NULL) {
+	if (ep[e] != NULL && busy_ep != e) {
 	    int xf = xcm_fd(ep[e]);
-	    if (xf != xfd0[e])
+	    if (xf != xfd0[e] && xf >= 0)
 		fdc[e] = 1;
 	    ka[e] = kfd[e] >= 0 ? poll_fd(kfd[e], POLLIN | POLLOUT) : -1;
 	    int rv = poll_fd(xf, POLLIN | POLLOUT | POLLPRI);
@@ -427,7 +424,7 @@ static int setup(const char *tpname, const char *mode)
 	utls_tls = true;
     }
     for (int e = 1; e <= 2; e++) {
-	nsent[e] = ndeliv[e] = 0;
+	nsent[e] = ndeliv[e] = nfail[e] = 0;
 	stream_len[e] = stream_rd[e] = 0;
 	ntok[e] = 0;
 	ref_len[e] = 0;
@@ -569,6 +566,260 @@ static int setup(const char *tpname, const char *mode)
     return 0;
 }
 
+static int stream_check(int e, int rc);
+
+/* ---- blocking-mode calls (helper thread) ---------------------------------- */
+static struct {
+    pthread_t th;
+    bool running;
+    volatile bool done;
+    int e, op;	/* op: 's' or 'r' */
+    long len, cap, tok, sstart, stok;
+    int sidx, setfail;
+    int ret, err;
+    struct lsum ls;
+    int mi, fl, ok;
+} blk;
+
+static void on_usr1(int sig) { (void)sig; }
+
+static void *blk_main(void *arg)
+{
+    (void)arg;
+    int e = blk.e;
+    lreset();
+    shim_enter(e);
+    errno = 0;
+    /* switching to blocking mode finishes outstanding work first (and may wait for it) */
+    if (xcm_set_blocking(ep[e], true) < 0) {
+	blk.ret = -1;
+	blk.err = errno;
+	blk.setfail = 1;
+    } else {
+	errno = 0;
+	if (blk.op == 's')
+	    blk.ret = xcm_send(ep[e], sbuf, blk.len);
+	else
+	    blk.ret = xcm_receive(ep[e], rbufg, blk.cap);
+	blk.err = errno;
+    }
+    shim_leave();
+    blk.ls = l1_summary();
+    blk.done = true;
+    return NULL;
+}
+
+static void emit_lsum(int e, struct lsum l)
+{
+    struct shim_io io = { 0 };
+    if (kfd[e] >= 0)
+	io = shim_io_get(kfd[e]);
+    fprintf(out, ",\"k\":[%ld,%d,%ld,%d,%ld],\"lg\":[%ld,%d,%ld,%d,%d,%d,%d],\"w\":%d",
+	    io.wu, io.wt, io.ru, io.rt, io.rlast,
+	    l.wu, l.wt, l.ru, l.rt, l.frc, l.ferr, l.n, 0);
+}
+
+/* start a blocking send / receive on endpoint e in the helper thread */
+static void do_blk_start(int e, int op, long arg)
+{
+    if (ep[e] == NULL || blk.running)
+	return;
+    memset(&blk, 0, sizeof(blk));
+    blk.e = e;
+    blk.op = op;
+    if (kfd[e] >= 0) {
+	shim_credit(kfd[e], SHIM_UNLIMITED, 0, SHIM_UNLIMITED, 0);
+	shim_io_reset(kfd[e]);
+    }
+    if (op == 's') {
+	long blen = arg > MAXMSG ? MAXMSG : arg;
+	blk.len = blen;
+	if (is_stream) {
+	    long tok = ++ntok[e];
+	    blk.stok = tok;
+	    for (long j = 0; j < blen; j++)
+		sbuf[j] = mix(e * 11 + (unsigned)xid * 131, (unsigned)tok, j);
+	    /* the peer may read while the call is in progress: what it may see is a prefix of this */
+	    blk.sstart = stream_len[e];
+	    if (nacalls[e] < MAXCALLS)
+		acalls[e][nacalls[e]++] = (struct acall){ stream_len[e], blen, cap_tok[e], cap_len[e], cap_off[e] };
+	    cap_len[e] = 0;
+	    ref_len[e] = 0;
+	    stream_append(e, sbuf, blen);
+	} else {
+	    blk.tok = ++ntok[e];
+	    fill_msg(sbuf, e, blk.tok, blen);
+	    /* the peer may receive it before the call returns: registered tentatively */
+	    blk.sidx = -1;
+	    if (blen >= 1 && blen <= 65535 && nsent[e] < MAXSENT) {
+		blk.sidx = nsent[e];
+		sent_tok[e][nsent[e]] = blk.tok;
+		sent_len[e][nsent[e]++] = (int)blen;
+	    }
+	}
+	F.len = blen;
+    } else {
+	blk.cap = arg > MAXMSG ? MAXMSG : arg;
+	memset(rbufg, 0xA5, blk.cap + 32);
+	F.cap = blk.cap;
+    }
+    blk.running = true;
+    busy_ep = e;
+    emit_begin(op == 's' ? "bs0" : "br0", e);
+    emit_noio();
+    emit_obs();
+    emit_end();
+    pthread_create(&blk.th, NULL, blk_main, NULL);
+}
+
+/* wait for the blocking call; sig: interrupt it with a signal if it has not returned after the grace period */
+static bool do_blk_join(int sig, int grace_ms)
+{
+    if (!blk.running)
+	return true;
+    int e = blk.e, p = 3 - e;
+    bool signalled = false;
+    for (int i = 0; i < grace_ms * 10 && !blk.done; i++)
+	usleep(100);
+    if (!blk.done && sig) {
+	pthread_kill(blk.th, SIGUSR1);
+	signalled = true;
+	for (int i = 0; i < 20000 && !blk.done; i++)
+	    usleep(100);
+    }
+    if (!blk.done) {
+	/* still blocked: report it (ret = -2) and abandon this execution */
+	F.ret = -2;
+	F.len = blk.len;
+	F.cap = blk.cap;
+	emit_begin(blk.op == 's' ? "bs1" : "br1", e);
+	emit_noio();
+	emit_obs();
+	emit_end();
+	pthread_cancel(blk.th);
+	pthread_join(blk.th, NULL);
+	blk.running = false;
+	busy_ep = 0;
+	return false;
+    }
+    pthread_join(blk.th, NULL);
+    blk.running = false;
+    busy_ep = 0;
+    int rc = blk.ret, err = blk.err;
+    int mi = 0, fl = 0, ok = 1;
+    if (blk.op == 's') {
+	if (is_stream) {
+	    /* keep only what the call reported as accepted */
+	    stream_len[e] = blk.sstart + (rc > 0 ? rc : 0);
+	    if (rc <= 0 && nacalls[e] > 0 && acalls[e][nacalls[e] - 1].start == blk.sstart) {
+		/* nothing accepted: a record captured earlier is still pending */
+		nacalls[e]--;
+		cap_tok[e] = acalls[e][nacalls[e]].ptok;
+		cap_len[e] = acalls[e][nacalls[e]].plen;
+		cap_off[e] = acalls[e][nacalls[e]].poff;
+	    } else if (rc > 0 && rc < blk.len) {
+		/* accepted in part (interrupted): the TLS library may hold a record made of the
+		   bytes that follow */
+		cap_tok[e] = blk.stok;
+		cap_off[e] = rc;
+		cap_len[e] = blk.len - rc;
+	    }
+	} else if (rc != 0 && blk.sidx >= 0) {
+	    /* the call failed: withdraw the tentative registration (it is the last one) */
+	    if (ndeliv[p] > blk.sidx)
+		mi = 1;	/* ... but the peer has already been handed this message */
+	    else
+		nsent[e] = blk.sidx;
+	    if (nfail[e] < MAXSENT) {
+		fail_tok[e][nfail[e]] = blk.tok;
+		fail_len[e][nfail[e]++] = (int)blk.len;
+	    }
+	}
+	F.len = blk.len;
+    } else {
+	for (int j = 0; j < 32; j++)
+	    if (rbufg[blk.cap + j] != 0xA5)
+		ok = 0;
+	if (rc > 0) {
+	    if (rc > blk.cap)
+		ok = 0;
+	    else if (is_stream) {
+		ok = stream_check(e, rc);
+		stream_rd[e] += rc;
+	    } else {
+		static unsigned char exp[MAXMSG + 16];
+		int i = ndeliv[e] + 1;
+		if (i <= nsent[p] && rc <= sent_len[p][i - 1]) {
+		    fill_msg(exp, p, sent_tok[p][i - 1], rc);
+		    if (memcmp(exp, rbufg, rc) == 0) {
+			mi = i;
+			fl = sent_len[p][i - 1];
+		    }
+		}
+		if (mi == 0) {
+		    ok = 0;
+		    for (int k = 0; k < nfail[p] && ok == 0; k++) {
+			if (rc > fail_len[p][k])
+			    continue;
+			fill_msg(exp, p, fail_tok[p][k], rc);
+			if (memcmp(exp, rbufg, rc) == 0)
+			    ok = 4;
+		    }
+		}
+		ndeliv[e]++;
+	    }
+	}
+	F.cap = blk.cap;
+    }
+    settle();
+    /* back to non-blocking mode for the rest of the script (only flips the flag), so that the
+       observation below can use xcm_fd() */
+    shim_enter(e);
+    xcm_set_blocking(ep[e], false);
+    shim_leave();
+    F.ret = rc; F.err = rc < 0 ? err : 0; F.mi = mi; F.fl = fl; F.ok = ok; F.rst = signalled;
+    F.rty = blk.setfail;	/* 1: xcm_set_blocking itself failed, the call was not made */
+    emit_begin(blk.op == 's' ? "bs1" : "br1", e);
+    emit_lsum(e, blk.ls);
+    emit_obs();
+    emit_end();
+    return true;
+}
+
+static void do_receive(int e, long cap, long rc_credit, int rerr, long wc, int werr);
+static int stream_check(int e, int rc);
+
+/* D <e> <n> <cap>: endpoint e runs a small event loop (await RECEIVABLE, poll, receive) for at most n
+   receives or until the blocking call in flight has returned */
+static void do_drain(int e, int n, long cap)
+{
+    if (ep[e] == NULL || busy_ep == e)
+	return;
+    shim_enter(e);
+    xcm_await(ep[e], XCM_SO_RECEIVABLE);
+    shim_leave();
+    F.cond = XCM_SO_RECEIVABLE;
+    emit_begin("a", e);
+    emit_noio();
+    emit_obs();
+    emit_end();
+    for (int i = 0; i < n && !(blk.running && blk.done); i++) {
+	struct pollfd pfd = { .fd = xcm_fd(ep[e]), .events = POLLIN };
+	poll(&pfd, 1, 20);
+	do_receive(e, cap, SHIM_UNLIMITED, 0, SHIM_UNLIMITED, 0);
+    }
+}
+
+/* shrink the kernel buffers so that back-pressure is real */
+static void do_smallbuf(int bytes)
+{
+    for (int e = 1; e <= 2; e++)
+	if (kfd[e] >= 0) {
+	    setsockopt(kfd[e], SOL_SOCKET, SO_SNDBUF, &bytes, sizeof(bytes));
+	    setsockopt(kfd[e], SOL_SOCKET, SO_RCVBUF, &bytes, sizeof(bytes));
+	}
+}
+
 /* ---- script commands ------------------------------------------------------ */
 static void plan(int e, long wc, int werr, long rc, int rerr)
 {
@@ -576,7 +827,7 @@ static void plan(int e, long wc, int werr, long rc, int rerr)
 	shim_credit(kfd[e], wc, werr, rc, rerr);
 	shim_io_reset(kfd[e]);
     }
-    nl = 0;
+    lreset();
     shim_wait_seen();
     shim_nonblock_watch(true);
 }
@@ -590,6 +841,53 @@ static void unplan(int e)
 
 /* byte streams: how a send refused with EAGAIN is retried.  pol 0: fresh data (another token),
    1: exactly the refused buffer again, 2: a longer buffer starting with the refused one */
+/* byte streams: do the rc bytes just delivered to e continue the stream accepted from its peer?
+   returns ok: 1 intact, 0 altered, 2 altered by the bytes of a refused send, 3 not judged */
+static int stream_check(int e, int rc)
+{
+    int p = 3 - e;
+    int ok = 1;
+    if (raw_mode || unchk[e]) {
+		if (unchk[e])
+		    ok = 3;	/* not judged */
+    } else if (stream_rd[e] + rc > stream_len[p] ||
+		memcmp(stream[p] + stream_rd[e], rbufg, rc) != 0) {
+		/* classify: are the unexpected bytes those of a send call that was refused (EAGAIN)?
+		   ok = 2: yes (history class "refused_bytes"), ok = 0: no */
+		long d = 0;
+		while (d < rc && stream_rd[e] + d < stream_len[p] && stream[p][stream_rd[e] + d] == rbufg[d])
+		    d++;
+		ok = 0;
+		long pos = stream_rd[e] + d;	/* absolute stream offset of the first unexpected byte */
+		long ptok = 0, plen = 0, o = 0, poff = 0;
+		if (pos >= stream_len[p]) {	/* beyond everything accepted: a send that is still refused */
+		    ptok = cap_tok[p];
+		    plen = cap_len[p];
+		    poff = cap_off[p];
+		    o = pos - stream_len[p];
+		} else
+		    for (int c = nacalls[p] - 1; c >= 0; c--)
+			if (acalls[p][c].start <= pos) {
+			    ptok = acalls[p][c].ptok;
+			    plen = acalls[p][c].plen;
+			    poff = acalls[p][c].poff;
+			    o = pos - acalls[p][c].start;
+			    break;
+			}
+		if (plen > 0 && o < plen) {
+		    long n = rc - d < plen - o ? rc - d : plen - o;
+		    long j;
+		    for (j = 0; j < n; j++)
+			if (rbufg[d + j] != mix(p * 11 + (unsigned)xid * 131, (unsigned)ptok, poff + o + j))
+			    break;
+		    if (j == n)
+			ok = 2;
+		}
+		unchk[e] = 1;
+    }
+    return ok;
+}
+
 static void do_send(int e, long len, long wc, int werr, int pol)
 {
     if (ep[e] == NULL)
@@ -607,7 +905,7 @@ static void do_send(int e, long len, long wc, int werr, int pol)
 	for (long j = 0; j < blen; j++)
 	    sbuf[j] = mix(e * 11 + (unsigned)xid * 131, (unsigned)tok, j);
     else
-	fill_msg(sbuf, e, nsent[e] + 1, blen);
+	fill_msg(sbuf, e, tok, blen);
     plan(e, wc, werr, SHIM_UNLIMITED, 0);
     shim_enter(e);
     errno = 0;
@@ -618,7 +916,7 @@ static void do_send(int e, long len, long wc, int werr, int pol)
     if (is_stream) {
 	if (rc > 0) {
 	    if (nacalls[e] < MAXCALLS)
-		acalls[e][nacalls[e]++] = (struct acall){ stream_len[e], rc, cap_tok[e], cap_len[e] };
+		acalls[e][nacalls[e]++] = (struct acall){ stream_len[e], rc, cap_tok[e], cap_len[e], cap_off[e] };
 	    stream_append(e, sbuf, rc);
 	    cap_len[e] = 0;
 	}
@@ -628,11 +926,17 @@ static void do_send(int e, long len, long wc, int werr, int pol)
 	    if (cap_len[e] == 0) {
 		cap_tok[e] = tok;
 		cap_len[e] = blen;
+		cap_off[e] = 0;
 	    }
 	} else
 	    ref_len[e] = 0;
-    } else if (rc == 0 && nsent[e] < MAXSENT)
+    } else if (rc == 0 && nsent[e] < MAXSENT) {
+	sent_tok[e][nsent[e]] = tok;
 	sent_len[e][nsent[e]++] = (int)blen;
+    } else if (rc < 0 && nfail[e] < MAXSENT && blen > 0) {
+	fail_tok[e][nfail[e]] = tok;
+	fail_len[e][nfail[e]++] = (int)blen;
+    }
     settle();
     F.len = blen; F.ret = rc; F.err = rc < 0 ? err : 0; F.rty = rty;
     emit_begin("s", e);
@@ -666,42 +970,7 @@ static void do_receive(int e, long cap, long rc_credit, int rerr, long wc, int w
 	    ok = 0;
 	else if (is_stream) {
 	    /* the delivered bytes must continue the peer's accepted stream */
-	    if (raw_mode || unchk[e]) {
-		if (unchk[e])
-		    ok = 3;	/* not judged */
-	    } else if (stream_rd[e] + rc > stream_len[p] ||
-		memcmp(stream[p] + stream_rd[e], rbufg, rc) != 0) {
-		/* classify: are the unexpected bytes those of a send call that was refused (EAGAIN)?
-		   ok = 2: yes (history class "refused_bytes"), ok = 0: no */
-		long d = 0;
-		while (d < rc && stream_rd[e] + d < stream_len[p] && stream[p][stream_rd[e] + d] == rbufg[d])
-		    d++;
-		ok = 0;
-		long pos = stream_rd[e] + d;	/* absolute stream offset of the first unexpected byte */
-		long ptok = 0, plen = 0, o = 0;
-		if (pos >= stream_len[p]) {	/* beyond everything accepted: a send that is still refused */
-		    ptok = cap_tok[p];
-		    plen = cap_len[p];
-		    o = pos - stream_len[p];
-		} else
-		    for (int c = nacalls[p] - 1; c >= 0; c--)
-			if (acalls[p][c].start <= pos) {
-			    ptok = acalls[p][c].ptok;
-			    plen = acalls[p][c].plen;
-			    o = pos - acalls[p][c].start;
-			    break;
-			}
-		if (plen > 0 && o < plen) {
-		    long n = rc - d < plen - o ? rc - d : plen - o;
-		    long j;
-		    for (j = 0; j < n; j++)
-			if (rbufg[d + j] != mix(p * 11 + (unsigned)xid * 131, (unsigned)ptok, o + j))
-			    break;
-		    if (j == n)
-			ok = 2;
-		}
-		unchk[e] = 1;
-	    }
+	    ok = stream_check(e, rc);
 	    stream_rd[e] += rc;
 	    mi = 0;
 	} else {
@@ -717,14 +986,23 @@ static void do_receive(int e, long cap, long rc_credit, int rerr, long wc, int w
 		    int L = sent_len[p][i - 1];
 		    if (rc > L)
 			continue;
-		    fill_msg(exp, p, i, rc);
+		    fill_msg(exp, p, sent_tok[p][i - 1], rc);
 		    if (memcmp(exp, rbufg, rc) == 0) {
 			mi = i;
 			fl = L;
 		    }
 		}
-		if (mi == 0)
+		if (mi == 0) {
 		    ok = 0;
+		    /* is it a message whose send call reported failure? */
+		    for (int i = 0; i < nfail[p] && ok == 0; i++) {
+			if (rc > fail_len[p][i])
+			    continue;
+			fill_msg(exp, p, fail_tok[p][i], rc);
+			if (memcmp(exp, rbufg, rc) == 0)
+			    ok = 4;
+		    }
+		}
 	    } else {
 		/* raw peer: payload of raw frame i is fill_msg(2, i, ..) */
 		int i = ndeliv[e] + 1;
@@ -820,7 +1098,7 @@ static void do_close(int e, int rst)
     F.rst = rst;
     emit_begin("c", e);
     emit_noio();
-    nl = 0;
+    lreset();
     emit_obs();
     emit_end();
 }
@@ -911,6 +1189,11 @@ int main(int argc, char **argv)
     signal(SIGABRT, on_signal);
     signal(SIGSEGV, on_signal);
     signal(SIGALRM, on_signal);
+    {
+	struct sigaction sa = { 0 };
+	sa.sa_handler = on_usr1;	/* no SA_RESTART: poll() fails with EINTR */
+	sigaction(SIGUSR1, &sa, NULL);
+    }
     kfd[1] = kfd[2] = -1;
 
     char line[512];
@@ -922,6 +1205,8 @@ int main(int argc, char **argv)
 	    continue;
 	alarm(60);
 	if (line[0] == 'X') {
+	    if (blk.running && !do_blk_join(1, 300))
+		live = false;
 	    sscanf(line, "%7s %ld %63s %63s", cmd, &xid, a1, a2);
 	    if (a2[0] == 0)
 		strcpy(a2, "pair");
@@ -933,6 +1218,17 @@ int main(int argc, char **argv)
 	}
 	if (!live)
 	    continue;
+	if (line[0] == 'B') {
+	    sscanf(line, "%7s %63s %ld %ld", cmd, a1, &v[0], &v[1]);
+	    do_blk_start(v[0], a1[0], v[1]);
+	    continue;
+	}
+	if (blk.running && line[0] != 'J') {
+	    /* while a blocking call is in flight only the other endpoint may act */
+	    long who = 0;
+	    if (sscanf(line, "%*s %ld", &who) == 1 && who == blk.e && strchr("srfac", line[0]))
+		continue;
+	}
 	if (line[0] == 'W') {
 	    sscanf(line, "%7s %63s %ld %ld", cmd, a1, &v[0], &v[1]);
 	    do_rawqueue(a1, v[0], v[1]);
@@ -948,11 +1244,17 @@ int main(int argc, char **argv)
 	case 'a': do_await(v[0], v[1]); break;
 	case 'c': do_close(v[0], n > 2 ? v[1] : 0); break;
 	case 'p': do_probe(); break;
+	case 'B': /* B s <e> <len> | B r <e> <cap> handled below */ break;
+	case 'J': if (!do_blk_join(n > 1 ? v[0] : 0, n > 2 ? v[1] : 300)) live = false; break;
+	case 'Z': do_smallbuf(v[0]); break;
+	case 'D': do_drain(v[0], v[1], n > 3 ? v[2] : 70000); break;
 	case 'w': do_rawwrite(n > 1 ? v[0] : -1); break;
 	default: break;
 	}
     }
     alarm(0);
+    if (blk.running)
+	do_blk_join(1, 300);
     close_all();
     fclose(out);
     return 0;
